@@ -237,12 +237,16 @@ impl Prop for C09 {
         let mut cfg = WorldCfg::default_testnet();
         if case.carve_out {
             use lightning_signer::policy::filter::{FilterResult, FilterRule, PolicyFilter};
-            cfg.policy.filter = PolicyFilter {
+            // assembled the way vlsd assembles it: the operator's rules merged into the policy's
+            // filter (rules listed first take precedence)
+            let mut f = PolicyFilter::default();
+            f.merge(PolicyFilter {
                 rules: vec![
                     FilterRule { tag: "policy-sweep-destination-allowlisted".to_string(), is_prefix: false, action: FilterResult::Error },
                     FilterRule { tag: "policy-".to_string(), is_prefix: true, action: FilterResult::Warn },
                 ],
-            };
+            });
+            cfg.policy.filter.merge(f);
             st.class("carve_out_filter");
         }
         let mut w = if case.onchain { World::new_onchain(cfg) } else { World::new(cfg) };
